@@ -1,3 +1,6 @@
+#include <algorithm>
+#include <climits>
+
 #include "VM/include/program.hpp"
 #include "VM/include/vm.hpp"
 
@@ -112,10 +115,11 @@ bool VM::executeSingle() {
       // i.parameters.add.source << " + " << i.parameters.add.constant <<
       // std::endl;
       WordIndex base = this->stack.back().data_start;
+      // add in a wider type: the int sum may leave the word range
+      long long sum = (long long)this->data[base + i.parameters.add.source] +
+                      (long long)i.parameters.add.constant;
       this->data[base + i.parameters.add.target] =
-          std::max(this->data[base + i.parameters.add.source] +
-                       i.parameters.add.constant,
-                   0);
+          (Word)std::min(std::max(sum, 0LL), (long long)INT_MAX);
       this->instruction_pointer++;
       break;
     }
